@@ -23,7 +23,7 @@ _NAMES = ('to_async_iter', 'to_sync_iter')
 _TR = transform.Asyncify(lambda qual, n: qual.split('.')[0] in _NAMES, local_rule=True,
                          want_gen=lambda qual: qual == 'to_sync_iter')
 M = loader.load('aiuti/asyncio.py', 'aiuti_asyncio_modeT_iter', extra_passes=[_TR],
-                rebind={'Lock': stubs.VLock, 'ThreadPoolExecutor': simloop.VExecutor, 'sleep': simloop.vsleep,
+                rebind={**stubs.MODE_T_REBIND, 'ThreadPoolExecutor': simloop.VExecutor, 'sleep': simloop.vsleep,
                         'queue': simloop.VQueueModule},
                 class_bases={'DaemonTask': '_vf_SimTask'}, inject={'_vt': vt, '_vf_SimTask': simloop.SimTask})
 try:
